@@ -21,7 +21,7 @@ static std::vector<uint32_t> mx_versions(const Plan &p, int ver) {
 }
 const char *VN[] = { "tls1.1", "tls1.2", "tls1.3", "dtls1.0", "dtls1.2" };
 struct Grp { uint16_t id; const char *name; };
-const Grp GROUPS[] = { { 23, "P-256" }, { 24, "P-384" }, { 25, "P-521" }, { 29, "X25519" } };
+const Grp GROUPS[] = { { 23, "P-256" }, { 24, "P-384" }, { 25, "P-521" }, { 29, "X25519" }, { 256, "ffdhe2048" }, { 257, "ffdhe3072" } };   // generators use the first four; the ffdhe groups only appear in fixed plans
 const size_t PAYLOADS[] = { 1, 2, 15, 16, 17, 255, 256, 1023, 1500, 4096, 16383, 16384, 16385, 20000, 33000 };
 
 struct Conn { int early_status = 0; bool early_delivered = false; bool ok = false, mx_complete = false, os_complete = false, data_ok = false, mx_resumed = false, os_resumed = false; std::string why; int os_alert_sent = -1, os_alert_recv = -1, mx_err = 0; std::string os_cipher, os_group; int os_ver = 0; uint64_t fp = 0; };
@@ -337,6 +337,18 @@ static std::vector<Plan> c10_fixed(int tier) {
                 Plan p; p.seed = 106000 + (uint64_t) (role * 10000 + ver * 1000 + row.id % 997); base_cfg(p, role, ver, row.id, row.kind); p.cfg["resume"] = 1; p.cfg["pl"] = row.id % 50; v.push_back(p);
             }
             for (int ck : { KK_RSA2048, KK_EC256 }) { Plan p; p.seed = 107000 + (uint64_t) (role * 100 + ver * 10 + ck); base_cfg(p, role, ver, ver == 3 ? TLS_ECDHE_RSA_WITH_AES_128_CBC_SHA : TLS_ECDHE_RSA_WITH_AES_128_GCM_SHA256, KK_RSA2048); p.cfg["cauth"] = ck; v.push_back(p); }
+        }
+    }
+    // TLS 1.3 over finite-field groups: many handshakes with fresh exponents (a shared secret with leading zero octets - one in 256 - must be
+    // left-padded to the size of the prime, RFC 8446 7.4.1; only an independent peer can tell)
+    for (int role = 0; role < 2; role++) {
+        int n = tier ? 1500 : 420;
+        for (int i = 0; i < n; i++) {
+            Plan p; p.seed = 112000 + (uint64_t) (role * 100000 + i);
+            base_cfg(p, role, 2, S13[i % 3], (i & 1) ? KK_RSA2048 : KK_EC256);
+            int g = (i % 16 == 15) ? 257 : 256;
+            p.cfg["grp_m1"] = g; p.cfg["grp_o1"] = g; p.cfg["key_shares"] = 1; p.cfg["pl"] = i % 7; p.cfg["chunk"] = 0;
+            v.push_back(p);
         }
     }
     // the MatrixSSL side enables a version range (TLS 1.1+1.2, DTLS 1.0+1.2) and the OpenSSL side only one of the two: every suite, both roles
